@@ -218,3 +218,93 @@ package ecs
 //@   ensures notifyCount[self.val] == old(notifyCount[self.val]) + 1
 //@   ensures notifyLast[self.val] == evtId(evt)
 //@   modifies notifyCount[self.val], notifyLast[self.val]
+
+// ---------------------------------------------------------------------------------------------
+// C09 — bit pool and lock mask
+// ---------------------------------------------------------------------------------------------
+// Ghost view of the free list as a stack indexed from the bottom: stk[h] is the bit at height h
+// (0 <= h < available), rank[b] is the height of bit b or -1 when b is not free.
+
+//@ ghostfield bitPool.stk map[int]uint8
+//@ ghostfield bitPool.rank map[uint8]int
+
+//@ pred bitPoolInv(p *bitPool) bool =
+//@   int(p.length) <= MaskTotalBits
+//@   && (forall h int :: {p.stk[h]} 0 <= h && h < int(p.available) ==> int(p.stk[h]) < int(p.length) && p.rank[p.stk[h]] == h)
+//@   && (forall b uint8 :: {p.rank[b]} p.rank[b] >= -1 && (p.rank[b] >= 0 ==> p.rank[b] < int(p.available) && p.stk[p.rank[b]] == b))
+//@   && (p.available > 0 ==> p.next == p.stk[int(p.available) - 1])
+//@   && (forall h int :: {p.stk[h]} 1 <= h && h < int(p.available) ==> p.bits[p.stk[h]] == p.stk[h - 1])
+
+//@ pred bitInUse(p *bitPool, b uint8) bool = int(b) < int(p.length) && p.rank[b] < 0
+
+//@ func bitPool.Get(p) (r)
+//@   props C09 C13
+//@   requires bitPoolInv(p)
+//@   panics_if p.available == 0 && int(p.length) >= MaskTotalBits
+//@   flag panic_clean
+//@   ghost p.rank[r] := -1
+//@   ensures bitPoolInv(p)
+//@   ensures !old(bitInUse(p, r)) && bitInUse(p, r)
+//@   ensures forall b uint8 :: b != r ==> bitInUse(p, b) == old(bitInUse(p, b))
+//@   ensures old(p.available) > 0 ==> r == old(p.stk[int(p.available) - 1]) && p.available == old(p.available) - 1 && p.length == old(p.length)
+//@   ensures old(p.available) == 0 ==> int(r) == int(old(p.length)) && p.length == old(p.length) + 1 && p.available == 0
+//@   modifies p.next, p.bits, p.available, p.length, p.rank
+
+//@ func bitPool.getNew(p) (r)
+//@   props C09
+//@   requires bitPoolInv(p) && p.available == 0
+//@   panics_if int(p.length) >= MaskTotalBits
+//@   flag panic_clean
+//@   ensures bitPoolInv(p) && int(r) == int(old(p.length)) && p.length == old(p.length) + 1 && p.available == 0
+//@   ensures forall b uint8 :: p.rank[b] == old(p.rank[b])
+//@   modifies p.bits, p.length
+
+//@ func bitPool.Recycle(p, b)
+//@   props C09 C13
+//@   requires bitPoolInv(p) && bitInUse(p, b)
+//@   ghost p.stk[int(old(p.available))] := b
+//@   ghost p.rank[b] := int(old(p.available))
+//@   ensures bitPoolInv(p)
+//@   ensures !bitInUse(p, b) && p.length == old(p.length)
+//@   ensures forall c uint8 :: c != b ==> bitInUse(p, c) == old(bitInUse(p, c))
+//@   modifies p.next, p.bits, p.available, p.stk, p.rank
+
+//@ func bitPool.Reset(p)
+//@   props C09 C15
+//@   ghost p.rank := const(-1)
+//@   ensures bitPoolInv(p) && p.length == 0 && p.available == 0
+//@   ensures forall b uint8 :: !bitInUse(p, b)
+//@   modifies p.next, p.length, p.available, p.rank
+
+//@ pred lockInv(m *lockMask) bool =
+//@   bitPoolInv(&m.bitPool) && (forall b uint8 :: {specBit(m.locks, b)} specBit(m.locks, b) == bitInUse(&m.bitPool, b))
+
+//@ func lockMask.Lock(m) (l)
+//@   props C09
+//@   requires lockInv(m)
+//@   panics_if m.bitPool.available == 0 && int(m.bitPool.length) >= MaskTotalBits
+//@   flag panic_clean
+//@   ensures lockInv(m)
+//@   ensures specBit(m.locks, l) && !old(specBit(m.locks, l))
+//@   ensures forall b uint8 :: b != l ==> specBit(m.locks, b) == old(specBit(m.locks, b))
+//@   modifies m.locks.bits, *(&m.bitPool)
+
+//@ func lockMask.Unlock(m, l)
+//@   props C09
+//@   requires lockInv(m)
+//@   panics_if !specBit(m.locks, l)
+//@   flag panic_clean
+//@   ensures lockInv(m)
+//@   ensures !specBit(m.locks, l)
+//@   ensures forall b uint8 :: b != l ==> specBit(m.locks, b) == old(specBit(m.locks, b))
+//@   modifies m.locks.bits, *(&m.bitPool)
+
+//@ func lockMask.IsLocked(m) (r)
+//@   props C09
+//@   ensures r == !maskEmpty(m.locks)
+//@   ensures r == (exists! b uint8 :: specBit(m.locks, b))
+
+//@ func lockMask.Reset(m)
+//@   props C09 C15
+//@   ensures lockInv(m) && maskEmpty(m.locks)
+//@   modifies m.locks.bits, *(&m.bitPool)
